@@ -14,8 +14,7 @@
    one action for upload_full_tree.  Deviations of the code from "remote := tree" are therefore visible to TLC:
    UploadCorrect / UploadNeverFails are proved for the deltas SafeDelta admits and are violated outside (see Unsafe).
 
-   Symlink targets: "s1"/"s2" for a top-level link are names inside the upload root; for a link below the top level
-   "s1" is a name inside the link's own directory, "s2" leaves it ("../b"). *)
+   Symlink targets: "s1" is a plain name inside the link's own directory, "s2" leaves the link's directory ("../b"). *)
 EXTENDS Naturals, Sequences, FiniteSets, SequencesExt, TLC
 
 CONSTANTS MaxEdits,        \* number of Commit / Uncommit actions after the initial commit
@@ -92,8 +91,9 @@ Stage0(fs) == [fs |-> fs, pr |-> <<>>, pd |-> <<>>, n |-> 0, ok |-> TRUE, err |-
 Got(S, r) == IF r.ok THEN [S EXCEPT !.fs = r.fs] ELSE [S EXCEPT !.ok = FALSE, !.err = r.err]
 TempName(n) == <<CASE n = 1 -> "tmp1" [] n = 2 -> "tmp2" [] n = 3 -> "tmp3" [] n = 4 -> "tmp4" [] n = 5 -> "tmp5" [] OTHER -> "tmp6">>
 \* upload_symlink(relpath, target) of the incremental path hands the link's RAW target to transport.symlink, which takes a
-\* path relative to the upload root and only links inside the link's own directory: below the top level it raises
-IncrSymlink(fs, p, val) == IF Len(p) > 1 THEN FErr(fs, "InvalidURL") ELSE FsSymlink(fs, p, val)
+\* path relative to the upload root and only links inside the link's own directory: it raises below the top level, and at
+\* the top level for a target that leaves the directory
+IncrSymlink(fs, p, val) == IF Len(p) > 1 \/ val = "s2" THEN FErr(fs, "InvalidURL") ELSE FsSymlink(fs, p, val)
 \* upload_file(where, source): the text of a non-file source reads as empty
 TextOf(e) == IF e.kind = "file" THEN e.val ELSE "empty"
 ExecOf(e) == e.kind = "file" /\ e.exec
@@ -136,7 +136,7 @@ PhaseModified(S, f, t) == FoldLeft(StepModified, S, ByRank(Modified(f, t), LAMBD
 ForceClear(fs, p) == IF IsDirAt(fs, p) THEN FsDeleteTree(fs, p).fs ELSE IF KindAt(fs, p) = "symlink" THEN Without(fs, p) ELSE fs
 \* upload_symlink_robustly normalises dirname(link)/target with osutils.normpath, which DROPS ".." segments instead of
 \* resolving them: a target that leaves the link's directory is rewritten
-FullTarget(e) == IF Len(e.path) > 1 /\ e.val = "s2" THEN "s2-rewritten" ELSE e.val
+FullTarget(e) == IF e.val = "s2" THEN "s2-rewritten" ELSE e.val
 StepFull(S, e) ==
     IF ~S.ok THEN S
     ELSE CASE e.kind = "file" -> Got(S, FsPut(ForceClear(S.fs, e.path), e.path, e.val, e.exec))
@@ -155,7 +155,8 @@ OldParentStays(f, t, e) ==        \* the directory an entry is renamed out of / 
     Len(e.path) = 1 \/ LET d == TreeAt(f, ParentOf(e.path)) IN
                        d.id \notin IdsOf(t) \/ ~IsRenamed(f, t, <<d, ById(t, d.id)>>)
 UnsafeIncr(f, t) ==
-    {"symlink-below-top" : x \in {e \in Added(f, t) \cup {pr[2] : pr \in KindChanged(f, t) \cup Modified(f, t)} : e.kind = "symlink" /\ Len(e.path) > 1}}
+    {"symlink-not-plain-top-level" : x \in {e \in Added(f, t) \cup {pr[2] : pr \in KindChanged(f, t) \cup Modified(f, t)} :
+                                                e.kind = "symlink" /\ (Len(e.path) > 1 \/ e.val = "s2")}}
     \cup {"symlink-retarget" : pr \in {x \in Modified(f, t) : x[2].kind = "symlink"}}
     \cup {"rename+kind-change" : pr \in {x \in Renamed(f, t) : x[1].kind # x[2].kind}}
     \cup {"rename+retarget" : pr \in {x \in Renamed(f, t) : x[1].kind = "symlink" /\ x[2].kind = "symlink" /\ x[1].val # x[2].val}}
@@ -166,7 +167,7 @@ UnsafeIncr(f, t) ==
 UnsafeFull(t, fs) ==
     {"stale-remote-path" : e \in {x \in fs : Absent(Proj(t), x.path)}}
     \cup {"symlink-over-remote-file" : e \in {x \in t : x.kind = "symlink" /\ KindAt(fs, x.path) = "file"}}
-    \cup {"symlink-leaves-its-directory" : e \in {x \in t : x.kind = "symlink" /\ Len(x.path) > 1 /\ x.val = "s2"}}
+    \cup {"symlink-leaves-its-directory" : e \in {x \in t : x.kind = "symlink" /\ x.val = "s2"}}
 Unsafe(f, t, mode, fs) == IF mode = "full" THEN UnsafeFull(t, fs) ELSE UnsafeIncr(f, t)
 
 (* ------------------------------------------------------------------ edits: one per commit *)
